@@ -24,6 +24,35 @@ TAG_UNIVERSE = {"C10": ["C10_UnauthorizedEffect", "C10_WrongPrincipal"]}
 MARK = "BEHAVIOUR "
 
 
+def _c(**k):
+    d = dict(kind="-", via="-", sender="-", origin="-", claimed="-", key="-", sig="-")
+    d["from"] = "-"
+    d.update(k)
+    return d
+
+
+def _ev(e, c, base="B1", chain="main"):
+    return {"ev": "Call", "a": {"base": base, "chain": chain, "e": e, "c": c}}
+
+
+def _scenarios():
+    """hand-written multi-step behaviours in which the set of rightful callers CHANGES: a second owner is
+    listed and acts, the gateway address is moved by governance and the old gateway is refused, association
+    is made and removed again.  Validated like every other behaviour (both lanes)."""
+    gw = _c(kind="evm", via="run", **{"from": "gw"})
+    a2 = _c(kind="evm", via="run", **{"from": "a2"})
+    own1 = _c(kind="evm", via="run", sender="a1", origin="a1", **{"from": "cA"})
+    own2 = _c(kind="evm", via="run", sender="a2", origin="a2", **{"from": "cA"})
+    gov = _c(kind="gov", via="exec", claimed="gov")
+    return [
+        [_ev("associateOperatorWithStaker", gw), _ev("dissociate_s1", gw), _ev("associateOperatorWithStaker", gw)],
+        [_ev("dissociateOperatorFromStaker", gw), _ev("associate_s2", gw), _ev("dissociateOperatorFromStaker", gw)],
+        [_ev("createTask", own2), _ev("updateAVS2", own1), _ev("createTask", own2), _ev("updateAVS", own2), _ev("createTask", own2)],
+        [_ev("depositLST", a2), _ev("UpdateParams_assets", gov), _ev("depositLST", gw), _ev("depositLST", a2)],
+        [_ev("deregisterAVS", own1), _ev("createTask", own1), _ev("registerAVS2", own2), _ev("deregisterAVS", own2)],
+    ]
+
+
 def _behaviours_from(out):
     res, seen = [], set()
     for line in out.split("\n"):
@@ -124,12 +153,12 @@ def _run(tier, seed, harness, d):
     vlib.stage_specs(dg, with_override=False)
     out, _ = vlib.tlc(dg, "MC_Auth_q.tla", "MC_Auth_gen.cfg", workers=1, timeout=900)
     cells = _behaviours_from(out)
-    if len(cells) < 300:
+    if len(cells) < 900:
         raise vlib.Infra("matrix generation produced too few cells:\n" + out[-2000:])
-    nsim = 40 if tier == "quick" else 300
+    nsim = 25 if tier == "quick" else 300
     sims = [json.loads(s) for s in vlib.tlc_simulate(dg, "MC_Auth_q.tla", "MC_Auth_sim.cfg", num=nsim, depth=4, seed=seed + 1000)]
     sims = [b for b in sims if len(b) > 1]
-    behs = _order(cells) + _order(sims)
+    behs = _order(cells) + _order(sims) + _scenarios()
     # 3 + 4
     lines, tags = _validate(d, harness, behs, "all")
     res["tags"] = tags
@@ -154,7 +183,7 @@ def _run(tier, seed, harness, d):
     res["samples"] = [{"behaviour": behs[0], "first_trace_lines": [{k: v for k, v in ln.items() if k not in ("st", "dg")} for ln in lines[1:3]]},
                       {"behaviour": behs[-1]}]
     res["rule"] = (f"behaviours = the complete Entry x Caller matrix printed by TLC from MC_Auth_gen ({len(cells)} cells, one behaviour each) + "
-                   f"{len(sims)} seeded multi-step behaviours of MC_Auth_sim; every one executed on the real app; "
+                   f"{len(sims)} seeded multi-step behaviours of MC_Auth_sim + {len(_scenarios())} hand-written scenarios in which the rightful callers change; every one executed on the real app; "
                    f"MC_Auth_dev (deviations of the current tree) violates {mdev['violated']} as required "
                    f"({mdev['states']} states); notes (no violation): {dict(notes)}; "
                    "distinct_nontrivial = distinct (cell, result, changed stores) triples")
